@@ -368,6 +368,12 @@ def run_item(harness, item, *, tier="quick", max_paths=256, timeout_ms=20000, ce
         impl_terms = {}
         for ob in env.obligations:
             out["n"] += 1
+            if collect and sum(1 for pr in pending_replays if pr["key"] == ob.key) >= 2:
+                # this key already has two counterexample candidates: the item fails anyway, do not spend
+                # solver time on every further path (they are counted, not decided)
+                dup_keys[ob.key] = dup_keys.get(ob.key, 0) + 1
+                res.obligations += 1
+                continue
             v = decide.prove(ob.goal, timeout_ms=timeout_ms, cell_limit=cell_limit)
             if collect:
                 res.obligations += 1
@@ -444,6 +450,12 @@ def run_item(harness, item, *, tier="quick", max_paths=256, timeout_ms=20000, ce
             rec = {"label": pr["replay_label"], "sym_label": pr["label"], "key": pr["key"], "detail": pr["detail"][:500], "cell": pr["cell"],
                    "reproduced": False, "model": _model_str(pr["model"]), "tries": 0}
             model = pr["model"]
+            if pr["kind"] == "fail":
+                # structural failure (holds for every value): replay at a generic point, not at the solver's
+                # arbitrary (typically all-zero) model where coincidences hide it
+                gp = _random_point(rng, pr["hyps"], symbols)
+                if gp is not None:
+                    model = gp
             blocked = []
             for attempt in range(max_models):
                 rec["tries"] = attempt + 1
